@@ -341,22 +341,30 @@ theorem filter_absent (c : Compiler) (fs : List (List Char)) (out : List Char)
 
 /-! ## C. illustrations (javac, three files) -/
 
-def exAlpha : List Char := "/tmp/tmpab12cd_9/src/alpha/Main.java".toList
-def exBeta : List Char := "/tmp/tmpab12cd_9/src/beta/Main.java".toList
-def exGamma : List Char := "/tmp/tmpab12cd_9/src/gamma/Main.java".toList
+/-- `chars! "ab"` is the list literal `['a', 'b']` (the same value as `"ab".toList`, but the
+kernel does not have to decode the string: `decide` on `String.toList` is ~20 times slower) -/
+scoped macro "chars! " s:str : term => do
+  let cs := s.getString.toList.toArray.map fun c => Lean.Syntax.mkCharLit c
+  `([$cs,*])
+
+example : chars! "a/b c" = "a/b c".toList := by decide
+
+def exAlpha : List Char := chars! "/tmp/tmpab12cd_9/src/alpha/Main.java"
+def exBeta : List Char := chars! "/tmp/tmpab12cd_9/src/beta/Main.java"
+def exGamma : List Char := chars! "/tmp/tmpab12cd_9/src/gamma/Main.java"
 
 def exBatch : List Item :=
-  [ .error exAlpha "3".toList [] "incompatible types: String cannot be converted to int".toList 0 [],
-    .error exBeta "7".toList [] "cannot find symbol".toList 0 ["  symbol:   variable x".toList],
-    .error exGamma "12".toList [] "missing return statement".toList 0 [],
-    .summary "3".toList ]
+  [ .error exAlpha (chars! "3") [] (chars! "incompatible types: String cannot be converted to int") 0 [],
+    .error exBeta (chars! "7") [] (chars! "cannot find symbol") 0 [(chars! "  symbol:   variable x")],
+    .error exGamma (chars! "12") [] (chars! "missing return statement") 0 [],
+    .summary (chars! "3") ]
 
 /-- the whole header line of beta's error -/
 def exHeaderFilter : List Char :=
-  "/tmp/tmpab12cd_9/src/beta/Main.java:7: error: cannot find symbol".toList
+  (chars! "/tmp/tmpab12cd_9/src/beta/Main.java:7: error: cannot find symbol")
 
 /-- a fragment of beta's message -/
-def exFragmentFilter : List Char := " find symbol".toList
+def exFragmentFilter : List Char := (chars! " find symbol")
 
 /-- the hypotheses of `filter_drops_line` are met by the batch and the header filter -/
 example : exHeaderFilter ≠ [] ∧ '\n' ∉ exHeaderFilter ∧ (∀ i ∈ exBatch, WFItem .javac i) ∧
@@ -368,29 +376,29 @@ example : exHeaderFilter ≠ [] ∧ '\n' ∉ exHeaderFilter ∧ (∀ i ∈ exBat
 /-- without a filter all three files are reported -/
 theorem ex_no_filter :
     analyze .javac [] (render .javac exBatch) =
-      ⟨false, [(exAlpha, ["3: error: incompatible types: String cannot be converted to int".toList]),
-               (exBeta, ["7: error: cannot find symbol".toList]),
-               (exGamma, ["12: error: missing return statement".toList])]⟩ := by
+      ⟨false, [(exAlpha, [(chars! "3: error: incompatible types: String cannot be converted to int")]),
+               (exBeta, [(chars! "7: error: cannot find symbol")]),
+               (exGamma, [(chars! "12: error: missing return statement")])]⟩ := by
   decide +kernel
 
 /-- (1) a filter equal to the whole header line of beta's error removes exactly beta -/
 theorem ex_header_filter :
     analyze .javac [exHeaderFilter] (render .javac exBatch) =
-      ⟨false, [(exAlpha, ["3: error: incompatible types: String cannot be converted to int".toList]),
-               (exGamma, ["12: error: missing return statement".toList])]⟩ := by
+      ⟨false, [(exAlpha, [(chars! "3: error: incompatible types: String cannot be converted to int")]),
+               (exGamma, [(chars! "12: error: missing return statement")])]⟩ := by
   decide +kernel
 
 /-- (2) a filter equal to a fragment of beta's message does **not** disregard the diagnostic:
 beta stays in the result, with the shortened message -/
 theorem ex_fragment_filter :
     analyze .javac [exFragmentFilter] (render .javac exBatch) =
-      ⟨false, [(exAlpha, ["3: error: incompatible types: String cannot be converted to int".toList]),
-               (exBeta, ["7: error: cannot".toList]),
-               (exGamma, ["12: error: missing return statement".toList])]⟩ := by
+      ⟨false, [(exAlpha, [(chars! "3: error: incompatible types: String cannot be converted to int")]),
+               (exBeta, [(chars! "7: error: cannot")]),
+               (exGamma, [(chars! "12: error: missing return statement")])]⟩ := by
   decide +kernel
 
 /-- the hypotheses of `filter_absent` are met by a filter that does not occur -/
-example : ∀ p ∈ ["no such text".toList, []], hasInfix p (render .javac exBatch) = false ∨ p = [] := by
+example : ∀ p ∈ [(chars! "no such text"), []], hasInfix p (render .javac exBatch) = false ∨ p = [] := by
   decide +kernel
 
 end Heph.Diag
